@@ -499,6 +499,26 @@ func TestC08_AuxPow(t *testing.T) {
 				}
 				rejected[key+"/"+m.name] = true
 			}
+			// an unsigned share that pays an in-zone address stays refused whatever location it declares
+			// (the only exemption from the template signature is a reward address the zone cannot pay)
+			if tg.kind == "uncle" && powID != types.Kawpow {
+				if _, e := tg.base.PrimaryCoinbase().InternalAddress(); e == nil {
+					for _, loc := range []common.Location{{0, 1}, {2, 2}, {0}, {}} {
+						w2 := types.CopyWorkObjectHeader(tg.base)
+						w2.SetLocation(loc)
+						w2.SetAuxPow(spec.assemble(w2.SealHash(), make([]byte, 64)))
+						if !tg.grind(w2) {
+							continue
+						}
+						name := fmt.Sprintf("unsigned-payable-share/declared-location=%v", []byte(loc))
+						if err := tg.verdict(w2); err == nil {
+							stats.Violation(t, part, "C08/auxpow/mutant-accepted/"+key+"/"+name, fmt.Sprintf("%s: a %s share without a valid template signature whose coinbase %x is an address of this zone is accepted because it declares location %v", label, powID, w2.PrimaryCoinbase().Bytes(), []byte(loc)), dump(map[string]any{"spec": spec.describe(), "header": describeWoh(w2)}))
+							return false
+						}
+						rejected[key+"/"+name] = true
+					}
+				}
+			}
 			// shares whose reward address is out of scope
 			if tg.kind == "uncle" && powID != types.Kawpow {
 				if stats.IsKnown(FpUnsignedShare) {
